@@ -45,7 +45,7 @@ add("C10", "exploration", [
 ])
 
 add("C01", "exploration", [
-    {"name": "c01-enum", "bin": "c01", "pkg": ZZ + "c01", "run": "^TestVerifC01(Enum|Shared)$",
+    {"name": "c01-enum", "bin": "c01", "pkg": ZZ + "c01", "run": "^TestVerifC01(Enum|Shared|CogroupGaps)$",
      "shards": {"quick": 6, "thorough": 16}, "timeout": {"quick": 600, "thorough": 3000}},
     {"name": "c01-random", "bin": "c01", "pkg": ZZ + "c01", "run": "^TestVerifC01Random$",
      "shards": {"quick": 10, "thorough": 16}, "checks": {"quick": 300, "thorough": 15000},
